@@ -177,7 +177,8 @@ def run(chk):
     rule_names(chk)
     rule_entry(chk)
     rule_used(chk)
-    rule_thread_group(chk)
+    if not rule_stage_eval(chk):
+        rule_thread_group(chk)
 
 
 def rule_annotations(chk):
@@ -450,6 +451,75 @@ def rule_used(chk):
                 vals.append(F.lit(fl["is_used"]))
         ok = bool(vals) and all(v == ("bool", True) for v in vals)
         chk.ob("C05.used/hlsl", ok, "HLSL never reports a binding unused" if ok else "HLSL metadata can report a binding as unused without any usage analysis (%s)" % vals, where(ab))
+
+
+def rule_stage_eval(chk):
+    """add_stage read as a table: for every ShaderStage and every position of [numthreads] in the entry point's attribute
+    list (alone, after / before another attribute, absent) the stage pushed onto the pipeline names the entry point that
+    was asked for, carries the stage kind, and reports Some((x, y, z)) exactly when the function has [numthreads(x, y, z)]
+    (the exporters print that attribute on every kind of entry point)."""
+    import interp as I
+    f = chk.facts
+    fn = f.fn("add_stage", "rssl_typer")
+    stages = f.variants("ShaderStage", "rssl_ir")
+    if not fn or not stages:
+        return False
+    opt = lambda v: I.Enum("Option", "None") if v is None else I.Enum("Option", "Some", {"0": v})
+    ok = lambda v: I.Enum("Result", "Ok", {"0": v})
+    X = lambda t: I.Enum("Expression", "Tagged", {"tag": t})
+    nt = I.Enum("FunctionAttribute", "NumThreads", {"0": X(8), "1": X(4), "2": X(2)})
+    other = I.Enum("FunctionAttribute", "WaveSize", {"0": X(32)})
+    lists = {"alone": [nt], "after-another": [other, nt], "before-another": [nt, other], "absent": [other], "none": []}
+    names = ["helper", "Entry", "other"]
+
+    def deref(v):
+        return v.get() if isinstance(v, I.Ref) else v
+    bad = {}
+    n = 0
+    for st in stages:
+        for lname, attrs in lists.items():
+            impl = I.Enum("FunctionImplementation", None, {"attributes": list(attrs)})
+            ext = {"FunctionRegistry::iter": lambda a: [I.Enum("FunctionId", None, {"0": i}) for i in range(len(names))],
+                   "FunctionRegistry::get_function_name": lambda a: names[deref(a[1]).fields["0"]],
+                   "FunctionRegistry::get_function_implementation": lambda a, impl=impl: opt(impl) if deref(a[1]).fields["0"] == 1 else opt(None),
+                   "evaluate_constexpr": lambda a: ok(I.Enum("Constant", "UInt32", {"0": deref(a[0]).fields["tag"]}))}
+            ip = I.Interp(f, max_depth=6, extern=ext)
+            ident = I.Enum("ScopedIdentifier", None, {"base": I.Enum("ScopedIdentifierBase", "Relative"), "identifiers": [I.Enum("Located", None, {"node": "Entry", "location": I.Opaque("location")})]})
+            entry = I.Enum("Located", None, {"node": I.Enum("PipelinePropertyValue", "Single", {"0": I.Enum("Expression", "Identifier", {"0": ident})}), "location": I.Opaque("location")})
+            ctx = I.Enum("Context", None, {"module": I.Enum("Module", None, {"function_registry": I.Opaque("function registry")})})
+            pdef = I.Enum("PipelineDefinition", None, {"stages": []})
+            try:
+                r = ip.apply(fn, [entry, I.Enum("ShaderStage", st), ctx, pdef])
+            except I.Unknown as e:
+                if "panicking" in str(e):
+                    bad.setdefault(st, "add_stage aborts for a %s entry point with attributes %s (%s)" % (st, lname, str(e)[:60]))
+                    continue
+                chk.note("C05.stage: add_stage is not readable (%s); the shape rules C05.threads decide" % str(e)[:80])
+                return False
+            n += 1
+            want = (8, 4, 2) if nt in attrs else None
+            pushed = pdef.fields["stages"]
+            if not (isinstance(r, I.Enum) and r.variant == "Ok"):
+                bad.setdefault(st, "add_stage refuses a %s entry point whose attributes are %s" % (st, lname))
+                continue
+            if len(pushed) != 1 or not isinstance(pushed[0], I.Enum):
+                bad.setdefault(st, "add_stage records %d stages for one %s entry point" % (len(pushed), st))
+                continue
+            ps = pushed[0].fields
+            tg = ps.get("thread_group_size")
+            got = tuple(tg.fields["0"]) if isinstance(tg, I.Enum) and tg.variant == "Some" else None
+            ep = ps.get("entry_point")
+            if got != want:
+                bad.setdefault(st, ("a %s entry point declared with [numthreads(8, 4, 2)] (%s in its attribute list) is reported with thread-group size %s: the emitted function carries the attribute, "
+                                    "the stage metadata does not agree" % (st, lname, got)) if want else "a %s entry point without [numthreads] is reported with thread-group size %s" % (st, got))
+            elif not (isinstance(ps.get("stage"), I.Enum) and ps["stage"].variant == st):
+                bad.setdefault(st, "a %s entry point is recorded as stage %s" % (st, getattr(ps.get("stage"), "variant", "?")))
+            elif not (isinstance(ep, I.Enum) and ep.fields.get("0") == 1):
+                bad.setdefault(st, "the stage records function %s as its entry point, the pipeline named function 1 (`Entry`)" % (ep,))
+    for st in stages:
+        chk.ob("C05.stage/" + st, st not in bad, bad.get(st) or "entry point, stage kind and thread-group size recorded for every attribute list", where(fn), sample={"stage": st})
+    chk.floor("C05.floor/stage-cases", n, 20, "add_stage evaluations", where(fn))
+    return True
 
 
 def rule_thread_group(chk):
